@@ -303,9 +303,11 @@ def mon_deadline(tr):
 
 def mon_unordered_ids(tr):
     """C17/C11: a SUBSCRIBE or UNSUBSCRIBE never goes out with an identifier that another request still holds, and the
-    identifiers stay inside their 13-bit spaces (0x6000.. subscribe, 0x4000.. unsubscribe)"""
+    identifiers stay inside their 13-bit spaces (0x6000.. subscribe, 0x4000.. unsubscribe). Packets are taken from the framed
+    byte stream of each connection, not from single write events."""
     out = []
     holder = {}        # identifier -> tag of the call that wrote it and has not returned
+    w = Wire()
     for i, (op, lines) in enumerate(tr):
         f = op.split()
         if f and f[0] in ("adopt", "init"):
@@ -315,21 +317,18 @@ def mon_unordered_ids(tr):
             if l.startswith("ret "):
                 for k in [k for k, t in holder.items() if t == p[1]]:
                     del holder[k]
-            elif l.startswith("ev w ") and len(p) > 3 and p[3][:2] in ("82", "a2") and len(p[3]) >= 8:
-                raw = bytes.fromhex(p[3])
-                k = 1
-                while k < len(raw) and raw[k] & 0x80:
-                    k += 1
-                if k + 3 > len(raw):
-                    continue
-                pid = (raw[k + 1] << 8) | raw[k + 2]
-                space = 0x6000 if raw[0] == 0x82 else 0x4000
-                if pid & ~0x1fff != space:
-                    out.append(("unordered:space", "%s with identifier %04x outside its space %04x..%04x" % ("SUBSCRIBE" if raw[0] == 0x82 else "UNSUBSCRIBE", pid, space, space + 0x1fff)))
-                tag = f[1] if f and f[0] == "call" else "?"
-                if pid in holder and holder[pid] != tag:
-                    out.append(("unordered:id-reuse", "identifier %04x written for request %s while request %s still holds it" % (pid, tag, holder[pid])))
-                holder[pid] = tag
+            elif l.startswith("ev w ") and len(p) > 3:
+                for d in w.add(i, p[2], unhex(p[3])):
+                    if d["name"] not in ("subscribe", "unsubscribe") or "id" not in d:
+                        continue
+                    pid = d["id"]
+                    space = 0x6000 if d["name"] == "subscribe" else 0x4000
+                    if pid & ~0x1fff != space:
+                        out.append(("unordered:space", "%s with identifier %04x outside its space %04x..%04x" % (d["name"].upper(), pid, space, space + 0x1fff)))
+                    tag = f[1] if f and f[0] == "call" else "?"
+                    if pid in holder and holder[pid] != tag and tag != "?" and holder[pid] != "?":
+                        out.append(("unordered:id-reuse", "identifier %04x written for request %s while request %s still holds it" % (pid, tag, holder[pid])))
+                    holder[pid] = tag
     return out
 
 
